@@ -522,8 +522,8 @@ func ruleShortSnapshot(w *core.World, r *core.Report) {
 			for _, fct := range core.FactsAt(ret.Block()) {
 				c, ok := core.AsCmp(fct.Cond, fct.Val)
 				if ok && c.Op == token.EQL && isConstInt(0)(c.Y) {
-					if ph, ok := c.X.(*ssa.Phi); ok && ph.Comment == "rdbSize" {
-						okZero = true
+					if ph, ok := c.X.(*ssa.Phi); ok && phiStartsFromField(ph, "RdbReader", "size") {
+						okZero = true // the remaining-bytes counter: initialised from the announced size
 					}
 				}
 			}
@@ -540,8 +540,38 @@ func ruleShortSnapshot(w *core.World, r *core.Report) {
 		n := 0
 		isSize := func(v ssa.Value) bool { return fieldNameOfLoad(v) == "size" }
 		isRead := func(v ssa.Value) bool {
+			// the bytes-delivered counter: starts at 0 and grows by the bytes just copied
 			ph, ok := core.Unwrap(v).(*ssa.Phi)
-			return ok && ph.Comment == "readBytes"
+			if !ok {
+				return false
+			}
+			zero, grows := false, false
+			seen := map[*ssa.Phi]bool{}
+			var walk func(p *ssa.Phi)
+			walk = func(p *ssa.Phi) {
+				if seen[p] {
+					return
+				}
+				seen[p] = true
+				for _, e := range p.Edges {
+					switch x := e.(type) {
+					case *ssa.Phi:
+						walk(x)
+					case *ssa.BinOp:
+						if x.Op == token.ADD {
+							if q, isPhi := x.X.(*ssa.Phi); isPhi && (q == ph || seen[q]) {
+								grows = true
+							}
+						}
+					default:
+						if isConstInt(0)(e) {
+							zero = true
+						}
+					}
+				}
+			}
+			walk(ph)
+			return zero && grows
 		}
 		for _, in := range core.Instrs(f) {
 			ret, ok := in.(*ssa.Return)
@@ -968,4 +998,33 @@ func ruleReplyErrorsChecked(w *core.World, r *core.Report) {
 	if n == 0 {
 		r.Fail("reply-error", token.NoPos, "no reply drain loop found in the snapshot replay package")
 	}
+}
+
+
+// phiStartsFromField: ph (or a phi it merges) has an operand that loads the
+// given field: a loop variable initialised from it.
+func phiStartsFromField(ph *ssa.Phi, typ, field string) bool {
+	seen := map[*ssa.Phi]bool{}
+	var walk func(p *ssa.Phi) bool
+	walk = func(p *ssa.Phi) bool {
+		if seen[p] {
+			return false
+		}
+		seen[p] = true
+		for _, e := range p.Edges {
+			if core.IsFieldLoad(core.Unwrap(e), typ, field) {
+				return true
+			}
+			if q, ok := e.(*ssa.Phi); ok && walk(q) {
+				return true
+			}
+			if b, ok := e.(*ssa.BinOp); ok {
+				if q, ok := b.X.(*ssa.Phi); ok && walk(q) {
+					return true
+				}
+			}
+		}
+		return false
+	}
+	return walk(ph)
 }
